@@ -35,6 +35,17 @@ def reproduces(f):
             if bool(r.get("result")) and r.get("better_status") == "sat":
                 return True
         return False
+    if e["kind"] == "optimum_pair":
+        # the optimal value of the declared objective for two declaration orders of one problem
+        from harness import c14
+
+        def opt(script):
+            r = pslib.Real()
+            r.run(script)
+            A = list(r.initialize()._solver.assertions())
+            setup = smrun.objective_setup(r, {}, script)
+            return c14.optimum(A, *setup)
+        return opt(f["script"]) == e["value"] and opt(f["script2"]) == e["value2"]
     if e["kind"] == "order_pair":
         def verdict(script):
             r = pslib.Real()
